@@ -3,6 +3,7 @@
 package cluster
 
 import (
+	"strings"
 	"errors"
 	"fmt"
 	"testing"
@@ -237,7 +238,7 @@ func (c *vvChecker) triple(a, b, x VersionVector) {
 }
 
 func TestVerif_vvlaws(t *testing.T) {
-	R := verifrt.NewReport("vvlaws", "exhaustive domain: ids {a,b,c} x counters {absent,0,1,2,MAX-1,MAX} = 216 vectors, every vector, every ordered pair; triples: all (thorough) or PRNG sample (quick); plus PRNG vectors over <=12 ids, plus four pairs of large vectors (40 000 - 65 535 ids each, unions beyond the serialisation cap) whose merge is checked entry-wise. non-trivial+distinct = distinct ordered pairs whose Compare result is not Equal, plus distinct PRNG pairs")
+	R := verifrt.NewReport("vvlaws", "exhaustive domain: ids {a,b,c} x counters {absent,0,1,2,MAX-1,MAX} = 216 vectors, every vector, every ordered pair; triples: all (thorough) or PRNG sample (quick); plus PRNG vectors over <=12 ids, plus ids of 1 .. 256 bytes (the validation's own limit), plus four pairs of large vectors (40 000 - 65 535 ids each, unions beyond the serialisation cap) whose merge is checked entry-wise. non-trivial+distinct = distinct ordered pairs whose Compare result is not Equal, plus distinct PRNG pairs")
 	defer R.Flush()
 	c := &vvChecker{R: R}
 	dom := vfVVDomain()
@@ -309,6 +310,28 @@ func TestVerif_vvlaws(t *testing.T) {
 		}
 		if k < 2 {
 			R.Sample(map[string]any{"a": vfVVSnap(a), "b": vfVVSnap(b), "c": vfVVSnap(x), "compare_ab": int(o), "merge_ab": vfVVSnap(a.Merge(b))})
+		}
+	}
+	// node ids at the length limits: every id the vector's own validation accepts (1 .. maxNodeAddressLength bytes) must
+	// survive all operations and the wire
+	if sh == 0 {
+		for li, ln := range []int{1, 2, 127, 128, 254, 255, maxNodeAddressLength - 1, maxNodeAddressLength} {
+			c.idx = 310000 + li
+			id := strings.Repeat("k", ln)
+			a := NewVersionVector()
+			var err error
+			if a, err = a.Increment(id); err != nil {
+				c.bad("increment-error", "Increment(long id)", "id of %d bytes: %v", ln, err)
+				continue
+			}
+			b := VfMakeVV(map[string]uint64{"other": 3, id: 7})
+			c.single(a)
+			c.single(b)
+			c.pair(a, b)
+			c.pair(b, a)
+			R.Eval()
+			R.Nontrivial(fmt.Sprintf("idlen:%d", ln))
+			R.Obs("id_length_cases", 1)
 		}
 	}
 	// large vectors: entry counts around and beyond the serialisation cap (65 535). The laws do not depend on size: the
